@@ -2,3 +2,4 @@
 import Iodata.Model.Fmt.FcidumpW
 import Iodata.Model.Fmt.PoscarW
 import Iodata.Model.Fmt.FchkO
+import Iodata.Model.Fmt.WfnS
